@@ -765,9 +765,13 @@ def template_request(case, res):
             "flags": fl}
 
 
+VALUES_COMPARED = [0]
+
+
 def close_arr(a, b, tol, scale):
     worst = 0.0
     for ra, rb in zip(a, b):
+        VALUES_COMPARED[0] += min(len(ra), len(rb))
         for x, y in zip(ra, rb):
             if not (math.isfinite(x) and math.isfinite(y)):
                 return False, math.inf
@@ -864,7 +868,9 @@ def run(ctx):
     for c in cases:
         judge(ctx, c, S[c["id"]], J.get(c["id"]), slots.get(c["id"]), answers)
     ctx.extra["programs"] = len(cases)
-    ctx.extra["disagreements_checked"] = ctx.impl_traces
+    # individual rate values (cells) compared, model-vs-code and code-vs-code (`traces_validated_against_impl` counts
+    # the rate ARRAYS of the real code compared with the model)
+    ctx.extra["disagreements_checked"] = VALUES_COMPARED[0]
     ctx.extra["jit_cases"] = len(jcases)
 
 
